@@ -1,0 +1,54 @@
+// SPDX-License-Identifier: MIT
+
+//go:build verif
+
+package tree
+
+import (
+	"fmt"
+	"slices"
+	"strings"
+)
+
+// VerifDump 以规范化的文本形式输出整个树的内部状态，仅用于验证。
+//
+// 每个节点输出：N、深度、Value、类型、Endpoint、pattern、methodIndex、
+// 排序后的 handlers 键、排序后的 indexes 以及子节点数量；最后输出非零的请求方法计数。
+func (tree *Tree[T]) VerifDump() []string {
+	out := make([]string, 0, 100)
+	tree.node.verifDump(0, &out)
+
+	cnt := make([]string, 0, len(tree.methods))
+	for m, n := range tree.methods {
+		if n != 0 {
+			cnt = append(cnt, fmt.Sprintf("%s=%d", m, n))
+		}
+	}
+	slices.Sort(cnt)
+	return append(out, "C", strings.Join(cnt, ","))
+}
+
+func (n *node[T]) verifDump(depth int, out *[]string) {
+	keys := make([]string, 0, len(n.handlers))
+	for k := range n.handlers {
+		keys = append(keys, k)
+	}
+	slices.Sort(keys)
+
+	idx := make([]string, 0, len(n.indexes))
+	for b, i := range n.indexes {
+		idx = append(idx, fmt.Sprintf("%03d:%d", b, i))
+	}
+	slices.Sort(idx)
+
+	ep := "0"
+	if n.segment.Endpoint {
+		ep = "1"
+	}
+
+	*out = append(*out, "N", fmt.Sprint(depth), n.segment.Value, fmt.Sprint(int(n.segment.Type)), ep,
+		n.pattern, fmt.Sprint(n.methodIndex), strings.Join(keys, ","), strings.Join(idx, ","), fmt.Sprint(len(n.children)))
+	for _, c := range n.children {
+		c.verifDump(depth+1, out)
+	}
+}
